@@ -84,6 +84,7 @@ row("assortativity_bin(4)", "bd", "s", lambda W: bct.assortativity_bin(W, 4))
 row("assortativity_wei(0)", "wu", "s", lambda W: bct.assortativity_wei(W, 0))
 row("local_assortativity_wu_sign", "sign", "vv", lambda W: bct.local_assortativity_wu_sign(W.copy()))
 row("pagerank_centrality", "wd", "v", lambda W: bct.pagerank_centrality(W, 0.85))
+row("pagerank_centrality(und)", "wu", "v", lambda W: bct.pagerank_centrality(W, 0.85))
 row("eigenvector_centrality_und", "wu", "v", bct.eigenvector_centrality_und)
 row("subgraph_centrality", "bu", "v", bct.subgraph_centrality)
 row("matching_ind", "bd", "mmm", bct.matching_ind)
@@ -118,6 +119,8 @@ TP = {
 SLOW = {"rich_club_bu", "rich_club_bd", "rich_club_wu", "rich_club_wd", "efficiency_wei(local)", "efficiency_wei(original)",
         "efficiency_bin(local)", "matching_ind", "erange", "rout_efficiency"}
 # spectral bisection picks an arbitrary eigenvector sign/tie: a partition, when ambiguous, may legitimately differ -> compared only when unique
+# rows whose value hinges on exact comparisons of route lengths: more cases (ties, one-ulp differences, parallel routes)
+TIE_SENSITIVE = {"betweenness_wei", "edge_betweenness_wei", "distance_wei", "distance_wei_floyd", "rout_efficiency"}
 SPECTRAL = {"modularity_und(spectral)", "modularity_dir(spectral)"}
 
 
@@ -297,9 +300,47 @@ def graph(draw, kind, nmax):
     elif kind == "sign":
         W = draw(gen.weights_for(A, "signed", False))
     elif kind in ("len-d", "len-u"):
-        W = draw(gen.weights_for(A, draw(st.sampled_from(["tie", "dyadic"])), directed))
+        wk = draw(st.sampled_from(["tie", "ulp", "dyadic", "ulp"]))
+        if wk == "ulp" and n >= 4 and draw(st.booleans()):
+            # parallel two-leg routes between two nodes (0 and 1 before renumbering): first legs on the tie grid (often exactly equal),
+            # second legs that differ from each other in the last bit only; plus whatever other connections the family drew
+            W = draw(gen.weights_for(A, "tie", directed))
+            W[0, 1] = W[1, 0] = 0.0
+            for m_ in range(2, n):
+                if draw(st.integers(0, 3)) > 0:
+                    a = float(draw(st.sampled_from([1.0, 1.0, 2.0])))
+                    b = float(draw(st.sampled_from([2.0, 1.0])))
+                    b = [b, float(np.nextafter(b, np.inf)), float(np.nextafter(b, 0)), b][draw(st.integers(0, 3))]
+                    W[0, m_], W[m_, 1] = a, b
+                    if not directed:
+                        W[m_, 0], W[1, m_] = a, b
+            return gen.apply_perm(W, draw(gen.perm(n))), "parallel-routes/ulp"
+        W = draw(gen.weights_for(A, "tie" if wk == "ulp" else wk, directed))
+        if wk == "ulp":
+            # routes whose lengths differ in the last bit only: unequal is unequal, under every numbering
+            pr = [(i, j) for (i, j) in gen.pairs(n, directed) if W[i, j] != 0]
+            bump = draw(st.lists(st.integers(0, 5), min_size=len(pr), max_size=len(pr)))      # most lengths stay on the tie grid
+            for (i, j), b in zip(pr, bump):
+                if b == 1:
+                    W[i, j] = np.nextafter(W[i, j], np.inf)
+                elif b == 2:
+                    W[i, j] = np.nextafter(W[i, j], 0)
+                if not directed:
+                    W[j, i] = W[i, j]
+            fam = fam + "/ulp"
     else:
-        W = draw(gen.weights_for(A, draw(st.sampled_from(["dyadic", "float", "bin"])), directed))
+        wk = draw(st.sampled_from(["dyadic", "float", "near-equal", "bin"]))
+        if wk == "near-equal":
+            # nearly regular: weights 1 + k 2^-20, strengths differ in the 7th digit
+            if draw(st.booleans()):
+                A = gen.ring_adj(n) if draw(st.booleans()) or n < 5 else (gen.ring_adj(n) | gen.apply_perm(gen.ring_adj(n), [(2 * i) % n if n % 2 else i for i in range(n)]))
+                A = gen.apply_perm(A, draw(gen.perm(n)))
+                fam = "regular"
+            W = draw(gen.weights_for(A, "dyadic", directed))
+            W = np.where(W != 0, 1.0 + (np.round(W * 8) % 8) * 2.0 ** -20, 0.0)
+            fam = fam + "/near-equal"
+        else:
+            W = draw(gen.weights_for(A, wk, directed))
     if kind in ("wu", "wd", "sign", "wu-conn", "len-d", "len-u"):
         # the same network in another unit (exact for the dyadic weights): renumbering commutes with every measure in any unit
         W = W * draw(st.sampled_from([1.0, 2.0 ** -30, 1.0, 2.0 ** 20, 1.0]))
@@ -326,6 +367,6 @@ def units(tier):
     for name in list(T) + list(TP):
         slow = name in SLOW
         nmax = 6 if slow else 9
-        ex = (60, 1000) if slow else (150, 2500)
+        ex = (100, 1000) if slow else ((800, 6000) if name in TIE_SENSITIVE else (300, 3000))
         us.append(Unit(name, check, strategy=(lambda nm=name, k=nmax: cases(nm, k)), examples=ex, shards=(1, 2)))
     return us
